@@ -292,6 +292,12 @@ class Backend:
     def ravel(self, x):
         return np.ravel(x)
 
+    def trace(self, x, **kw):
+        x = np.asarray(x, dtype=object)
+        if x.ndim != 2:
+            raise core.OutsideSubset("trace of a non-matrix")
+        return sum((x[i, i] for i in range(min(x.shape))), ZERO)
+
     def einsum(self, spec, *ops, **kw):
         return np.einsum(spec, *[arr(o) for o in ops])
 
